@@ -17,11 +17,12 @@ use truc::record::type_resolver::HostTypeResolver;
 use verif_harness::Rng;
 
 /// lab field types: name, size, align, Copy?
-const TYPES: [(&str, usize, usize, bool); 17] = [
+const TYPES: [(&str, usize, usize, bool); 18] = [
     // real std heap types (values carry JSON escapes); no drop logging for them
     ("String", 24, 8, false), ("Box<str>", 16, 8, false), ("Vec<u8>", 24, 8, false),
     ("P1", 1, 1, true), ("P2", 2, 2, true), ("P4", 4, 4, true), ("P8", 8, 8, true), ("P16", 16, 16, true),
     ("P3", 3, 1, true), ("P12", 12, 4, true), ("P24", 24, 8, true), ("Option<P4>", 8, 4, true),
+    ("P32", 32, 32, true),
     ("H", 8, 8, false), ("O3", 3, 1, false), ("A16", 16, 16, false), ("Z", 0, 1, false), ("Z8", 0, 8, false),
 ];
 
@@ -322,12 +323,16 @@ fn build_def(rng: &mut Rng, req: &mut String) -> RecordDefinition<NativeDatumDet
     // stay uninitialised (whole-record fast paths); 3 = many zero-size fields (fields sharing an offset)
     // 4 = owning data first, later variants only remove or add plain data that may stay uninitialised (whole-record shortcuts
     //     keyed on what a step adds rather than on what the variant holds)
-    let shape = match rng.below(16) { 0 | 1 => 1, 2 | 3 => 2, 4 | 5 => 3, 6 | 7 => 4, _ => 0 };
+    // 5 = an empty variant inside the history: either the first variant is empty (the first data appear in the second), or a step
+    //     removes everything and adds nothing (conversions that only remove, then conversions from an empty record)
+    let shape = match rng.below(18) { 0 | 1 => 1, 2 | 3 => 2, 4 | 5 => 3, 6 | 7 => 4, 8 | 9 => 5, _ => 0 };
+    let nvar = if shape == 5 { 3 + rng.below(2) } else { nvar };
+    let empty_first = shape == 5 && rng.chance(1, 2);
     for v in 0..nvar {
         let mut freed_names: Vec<String> = vec![];
         if v > 0 {
             for id in live.clone() {
-                if rng.chance(1, 3) {
+                if rng.chance(1, 3) || (shape == 5 && !empty_first && v == 1) {
                     b.remove_datum(truc::record::definition::DatumId::from(id)).unwrap();
                     writeln!(req, "rm {}", id).unwrap();
                     live.retain(|&x| x != id);
@@ -335,10 +340,13 @@ fn build_def(rng: &mut Rng, req: &mut String) -> RecordDefinition<NativeDatumDet
                 }
             }
         }
-        let nadd = if shape == 1 && v == 0 { 17 + rng.below(4) } else if rng.chance(1, 8) { 0 } else { 1 + rng.below(5) };
+        let nadd = if shape == 1 && v == 0 { 17 + rng.below(4) } else if shape == 5 && ((empty_first && v == 0) || (!empty_first && v == 1)) { 0 }
+                   else if rng.chance(1, 8) && shape != 5 { 0 } else { 1 + rng.below(5) };
         for _ in 0..nadd {
             let (ty, size, align, copy) = loop {
-                let t = if shape == 0 && rng.chance(1, 10) { TYPES[11] } else { TYPES[rng.below(TYPES.len())] };
+                // the Miri lab (VERIF_X_ALLINIT) leans on the over-aligned types: stores into bare locals are where alignment assumptions bite
+                let over = std::env::var("VERIF_X_ALLINIT").is_ok() && rng.chance(1, 3);
+                let t = if over { *rng.pick(&[TYPES[12], TYPES[7], TYPES[15]]) } else if shape == 0 && rng.chance(1, 10) { TYPES[11] } else { TYPES[rng.below(TYPES.len())] };
                 if shape == 2 && !t.3 { continue; }
                 if shape == 4 && v > 0 && !t.3 { continue; }
                 if shape == 4 && v == 0 && t.3 && rng.chance(2, 3) { continue; }
